@@ -148,6 +148,7 @@ type ecOutcome struct {
 	final     string // digest of the final observable effects (for the direct cut-independence comparison)
 	complete  bool
 	err       string // harness problem
+	hung      bool
 }
 
 // ------------------------------------------------------------------------------------------------ small helpers
@@ -347,6 +348,7 @@ func ecListen() error {
 
 var ecPairMu sync.Mutex
 var ecTimePair, ecTimeRest, ecTimeClean int64
+var ecAbort int32 // set when a behaviour left a spinning goroutine behind: the shard stops taking new behaviours
 
 func ecConnPair() (c, s *net.UnixConn, err error) {
 	ecPairMu.Lock() // one dial/accept at a time, so that the two ends belong together
@@ -663,6 +665,9 @@ func ecExecRun(jc *ecCase, bi int, steps []ecStep, listed map[string]bool) (out 
 	}
 	tg, err := ecWire(jc, client, server)
 	defer func() {
+		if out.hung {
+			return // the spinning goroutine is still inside the session: leave everything as it is
+		}
 		func() {
 			tC := time.Now()
 			defer func() { recover() }()
@@ -697,15 +702,28 @@ func ecExecRun(jc *ecCase, bi int, steps []ecStep, listed map[string]bool) (out 
 		}
 		out.reads++
 		wasClosed := tg.t.IsClosed()
-		pmsg := func() (msg string) {
+		// the read runs on a goroutine of its own so that an event loop that never returns is seen (and reported) instead of
+		// hanging the harness
+		pch := make(chan string, 1)
+		go func() {
+			msg := ""
 			defer func() {
 				if r := recover(); r != nil {
 					msg = fmt.Sprintf("%v [%s]", r, ecShortStack())
 				}
+				pch <- msg
 			}()
 			tg.conn.onReadReady()
-			return ""
 		}()
+		var pmsg string
+		select {
+		case pmsg = <-pch:
+		case <-time.After(15 * time.Second):
+			atomic.StoreInt32(&ecAbort, 1)
+			viol("hang", si+1, "onReadReady/handleEvents did not return within 15 s: the event-loop goroutine spins (the whole process stops serving)")
+			out.hung = true
+			return
+		}
 		var got ecState
 		if pmsg == "" {
 			got = tg.observe()
@@ -1341,8 +1359,13 @@ func ecExecChild(jc *ecCase, bi int, steps []ecStep, listed map[string]bool, tok
 	os.WriteFile(in, b, 0644)
 	defer os.Remove(in)
 	defer os.Remove(outp)
+	if jc.Exec != "run" { // a child that dies cannot remove the share-memory files it created
+		defer os.Remove(string(ecBytes(jc.Goodq)))
+		defer os.Remove(string(ecBytes(jc.Goodb)))
+	}
 	cmd := exec.Command(os.Args[0], "-test.run", "^TestVS_EventCodec$", "-test.timeout", "60s")
 	cmd.Env = append(os.Environ(), "VS_EC_CHILD="+in, "VS_EC_CHILD_OUT="+outp)
+	cmd.SysProcAttr = &unix.SysProcAttr{Pdeathsig: unix.SIGKILL}
 	var buf bytes.Buffer
 	cmd.Stdout = &buf
 	cmd.Stderr = &buf
@@ -1651,6 +1674,7 @@ func TestVS_EventCodec(t *testing.T) {
 				defer os.Remove(outp)
 				cmd := exec.Command(os.Args[0], "-test.run", "^TestVS_EventCodec$", "-test.timeout", "1500s")
 				cmd.Env = append(os.Environ(), "VS_EC_SHARD=1", "VS_IN_JOB="+in, "VS_OUT="+outp, "GOMAXPROCS=4", "VS_EC_WORKERS=1")
+				cmd.SysProcAttr = &unix.SysProcAttr{Pdeathsig: unix.SIGKILL}
 				var buf bytes.Buffer
 				cmd.Stdout = &buf
 				cmd.Stderr = &buf
@@ -1731,5 +1755,8 @@ func TestVS_EventCodec(t *testing.T) {
 	b, _ := json.Marshal(res)
 	if err := os.WriteFile(os.Getenv("VS_OUT"), b, 0644); err != nil {
 		t.Fatal(err)
+	}
+	if shardMode && atomic.LoadInt32(&ecAbort) == 1 {
+		os.Exit(0) // a goroutine of the library is spinning in this process; do not wait for anything
 	}
 }
